@@ -10,7 +10,8 @@
      SaveBegin / SaveCommit   every save is two steps so that Crash can fall between them:
                  intended design: write a temporary file, then rename (the old file survives a crash);
                  Dev.NonAtomicWrite: truncate and write in place (a crash leaves a torn file)
-     MaybeSave   periodic save after a body iteration when rep is a multiple of SavePeriod
+     MaybeSave   periodic save after a body iteration when rep is a multiple of SavePeriod, or when more
+                 than five minutes have passed since the last save (TimerAt)
      VarSave     the save at the end of a variation,  Final  the results file,  Delete  partial files
      Crash       enabled in EVERY non-terminal state; volatile state is lost, files stay
      Restart     a new process: same parameters, or other parameters (must be refused)
@@ -24,6 +25,8 @@
 EXTENDS Integers, Sequences, FiniteSets, TLC, Emit
 
 CONSTANTS NV, RepMax, SavePeriod, MaxInc, DeletePartials, AllowMismatch,
+          TimerAt, \* set of <<variation, rep>>: more than five minutes have passed since the last save when that
+                   \* repetition has been merged (the wall-clock half of save_partial_results_maybe)
           Dev      \* [NonAtomicWrite, SaveBeforeIncrement, LoadedMergedTwice, NoParamGuard, TornAccepted : BOOLEAN]
 
 VARIABLES inc, phase, ret, v, rep, cur, disk, final, wr, pid, hist, loaded, nw
@@ -74,7 +77,7 @@ Body ==
   /\ phase = "body"
   /\ cur' = OneMore
   /\ rep' = rep + 1
-  /\ IF (rep + 1) % SavePeriod = 0
+  /\ IF (rep + 1) % SavePeriod = 0 \/ <<v, rep + 1>> \in TimerAt
        THEN /\ phase' = "wbegin" /\ ret' = "test"
             /\ wr' = [f |-> v, c |-> [rep |-> IF Dev.SaveBeforeIncrement THEN rep ELSE rep + 1, cnt |-> cur', pid |-> pid]]
        ELSE /\ phase' = "test" /\ UNCHANGED <<ret, wr>>
